@@ -251,7 +251,7 @@ def gen_case(rnd):
         if r < 0.25:
             sels.append(["class", kind])
         elif r < 0.85 and kind != "Prop":
-            sels.append(["object", j, rnd.choice(["direct", "dotted", "direct", "under_sweep"])])
+            sels.append(["object", j, rnd.choice(["direct", "dotted", "direct", "under_sweep", "named_receiver"])])
         else:
             sels.append(["class", kind])
     # a path of two bound methods: oI.relay > oJ.meth > v (both receivers are usually called self)
@@ -325,6 +325,9 @@ def run_case(ns, case, res):
                 if sel[2] == "dotted":
                     box.holder.obj = pop[j]
                     text = "box.holder.obj.meth > v"
+                elif sel[2] == "named_receiver":
+                    # the selector names the receiver parameter itself, under an alias
+                    text = f"o{j}.meth({RECV.get(kind, 'self')} as me) > v"
                 elif sel[2] == "under_sweep":
                     text = f"sweep > o{j}.meth > v"
                 else:
